@@ -234,6 +234,19 @@ def decL : Nat → Nat → Nat → Bytes → Except DErr (List Item × Bytes)
       | .ok (its, r') => .ok (it :: its, r')
 end
 
+/-- The item header at the front of `bs` — `decodeItem` from its entry up to its `switch formatCode`:
+    format code, number of length bytes (1..3, zero rejected), length field, and what follows the header.
+    `dec` parses exactly this header (`dec_via_decHeader`, Lemmas/Secs2Gen); the translation of that part of the Go
+    function is tied to it in Props/C02. -/
+def decHeader (bs : Bytes) : Except DErr (Nat × Nat × Nat × Bytes) :=
+  match bs with
+  | [] => .error .eofFormat
+  | fb :: r1 =>
+    let k := fb.toNat % 4
+    if k = 0 then .error .zeroLen
+    else if lenLt r1 k then .error .eofLen
+    else .ok (fb.toNat / 4, k, beVal (r1.take k), r1.drop k)
+
 /-- Fuel that is always enough: every recursive call consumes at least one unit and every item
     at least two bytes. -/
 def fuelFor (bs : Bytes) : Nat := 2 * bs.length + 2
